@@ -61,3 +61,34 @@ Proof.
   - intros ys fuel Hl. exact (BarHillelProofs.bar_hillel_start_trel S nt tm s' states init fin arcs G start V f ys fuel Hl).
 Qed.
 Print Assumptions C09_product_grammar.
+
+(* Composing with a plain string is the pointwise product: for the letter-to-letter machine of the string x (the diagonal
+   of the string automaton; its relation is proved to be  xs = ys = x  with weight one), the product grammar's valuation
+   gives ys the weight  grammar(x)  when ys = x and zero otherwise -- so the total weight of the grammar composed with x
+   is grammar(x).  Equation level like C09_product_grammar, every commutative semiring. *)
+From GV.proofs Require IntersectStringProofs.
+Theorem C09_intersect_string : forall (S : SR) (nt tm : nat -> nat -> nat -> nat) (s' : nat)
+    (G : grammar S) (start : nat) (V : list nat) (f : nat -> list nat -> S) (x : list nat),
+  (forall p X q p' X' q', nt p X q = nt p' X' q' -> p = p' /\ X = X' /\ q = q') ->
+  (forall p a q p' a' q', tm p a q = tm p' a' q' -> p = p' /\ a = a' /\ q = q') ->
+  (forall p X q p' a q', nt p X q <> tm p' a q') ->
+  (forall p X q, nt p X q <> s') -> (forall p a q, tm p a q <> s') ->
+  NoDup V -> (forall a, In a x -> In a V) ->
+  (forall r a, In r G -> In (T a) (rbody r) -> In a V) ->
+  FoldProofs.solves S G f ->
+  FoldProofs.solves S
+    (bar_hillel nt tm s' (seq 0 (Datatypes.S (length x))) [(0, s1)] [(length x, s1)] (IntersectStringProofs.string_arcs S x) G start)
+    (BarHillelProofs.Fv S nt tm s' (seq 0 (Datatypes.S (length x))) [(0, s1)] [(length x, s1)] (IntersectStringProofs.string_arcs S x) G start V f) /\
+  (forall ys,
+     BarHillelProofs.Fv S nt tm s' (seq 0 (Datatypes.S (length x))) [(0, s1)] [(length x, s1)] (IntersectStringProofs.string_arcs S x) G start V f s' ys
+     = if list_eqb Nat.eqb ys x then f start x else s0) /\
+  (forall fuel xs ys, length xs <= fuel ->
+     trel (BarHillelProofs.lift_fst S [(0, s1)] [(length x, s1)] (IntersectStringProofs.string_arcs S x)) fuel xs ys
+     = if andb (list_eqb Nat.eqb xs ys) (list_eqb Nat.eqb xs x) then s1 else s0).
+Proof.
+  intros S nt tm s' G start V f x H1 H2 H3 H4 H5 HV Hx HG Hf.
+  destruct (IntersectStringProofs.intersect_string_grammar S nt tm s' G start V f x H1 H2 H3 H4 H5 HV Hx HG Hf) as [A B].
+  split; [exact A|split; [exact B|]].
+  intros fuel xs ys Hl. exact (IntersectStringProofs.string_relation S x fuel xs ys Hl).
+Qed.
+Print Assumptions C09_intersect_string.
